@@ -321,6 +321,7 @@ func (s *parallelSolverImpl) Solve(
 					go func(r int) {
 						defer func() {
 							<-parallelCount
+							verifNote("worker_done", r)
 							waitGroup.Done()
 						}()
 
